@@ -4,6 +4,8 @@ package prelude
 
 //@ func (github.com/cosmos/cosmos-sdk/types.Context).BlockHeight
 //@   ensures result == W.height
+//@   ensures result >= 0
+//@   assumes A-TIME: block heights are never negative
 //@ func (github.com/cosmos/cosmos-sdk/types.Context).BlockTime
 //@   ensures result == W.time
 //@ func (github.com/cosmos/cosmos-sdk/types.Context).BlockGasMeter
